@@ -272,18 +272,27 @@ fn recover_and_check_inner(store_dir: &Path, acks: &[Value], soft: &mut Vec<(Str
     let threads: BTreeSet<String> = events.iter().filter(|e| e.stream_kind() == StreamKind::Continuity).map(|e| e.stream_id().to_string()).collect();
     let log2 = Arc::new(EventLog::new(&log_path).map_err(|e| ("open_log".to_string(), e.to_string()))?);
     let store = ContinuityStore::new(data.clone(), root.clone(), log2).map_err(|e| ("store_open".to_string(), e))?;
-    // (6) C04 on the recovered store, before anything heals it: every read capability with the
-    // caches as found must equal the same capability on a copy whose caches were removed.
+    // (6) C04 on the recovered store, before anything heals it: every read capability AND the
+    // compiled context for every message anchor, with the caches as found, must equal the same on
+    // a copy whose caches were removed (both under fresh authorities on private copies).
     {
-        let copy = scratch_dir("c05c");
-        let cdata = copy.path().join("data");
-        let _ = crate::common::copy_dir(&data, &cdata);
-        let _ = std::fs::remove_dir_all(cdata.join("continuity_streams"));
-        let clog = Arc::new(EventLog::new(cdata.join("events.jsonl")).map_err(|e| ("open_log".to_string(), e.to_string()))?);
-        let cstore = ContinuityStore::new(cdata.clone(), root.clone(), clog).map_err(|e| ("store_open".to_string(), e))?;
+        let rt = crate::fixture::new_rt();
+        let mk = |with_caches: bool| {
+            let copy = scratch_dir("c05c");
+            let cdata = copy.path().join("data");
+            let croot = copy.path().join("ws");
+            let _ = crate::common::copy_dir(&data, &cdata);
+            let _ = crate::common::copy_dir(&root, &croot);
+            if !with_caches {
+                let _ = std::fs::remove_dir_all(cdata.join("continuity_streams"));
+            }
+            crate::fixture::Fx::open(copy, cdata, croot, rt.clone())
+        };
+        let found_fx = mk(true);
+        let truth_fx = mk(false);
         for t in &threads {
-            let found = crate::queries::read_answers(&store, t, true);
-            let truth = crate::queries::read_answers(&cstore, t, true);
+            let found = crate::c04::all_answers(&found_fx, t, true, 4);
+            let truth = crate::c04::all_answers(&truth_fx, t, true, 4);
             for ((name, a), (_, b)) in found.iter().zip(truth.iter()) {
                 if a != b {
                     let q = name.split('(').next().unwrap_or(name);
